@@ -1039,6 +1039,99 @@ def test_homog(case, note):
                   dict(err=float(np.max(np.abs(tr))), scale=sc))
 
 
+# ---------------------------------------------------------------------------
+# the kinematic decomposition of a fluid moving through the slicing
+
+
+@st.composite
+def kin_case(draw):
+    c = draw(homog_case())
+    c["speed"] = draw(st.one_of(st.just(0.0), st.floats(0.05, 0.9)))
+    c["dir"] = [draw(st.floats(-1, 1)) for _ in range(3)]
+    c["wiggle"] = draw(st.sampled_from([0.0, 0.05, 0.2]))
+    c["form"] = draw(st.sampled_from(["components", "tensors"]))
+    return c
+
+
+def test_kinematic(case, note):
+    """theta_ab = sigma_ab + theta h_ab / 3 with sigma trace-free with
+    respect to h^ab (the projector orthogonal to the fluid, not to the
+    slicing), sigma and theta_ab symmetric, omega antisymmetric: round-off
+    identities for any data, smooth or not."""
+    from harness.aurelside import make_fd
+    fd = make_fd([6, 7, 5], [0.0, 0.0, 0.0], [0.5, 0.25, 0.5],
+                 case["order"], "periodic")
+    one = np.ones(fd.x.shape)
+    w = case["wiggle"]
+    mod = [1.0 + w * np.sin(2 * np.pi * (fd.x / 3.0 + k * fd.y / 1.75
+                                         - fd.z / 2.5) + k)
+           for k in range(4)]
+    Lm = np.array(case["L"])
+    gam0 = Lm @ Lm.T
+    gam = gam0.reshape(3, 3, 1, 1, 1) * mod[0]
+    K = np.zeros((3, 3) + fd.x.shape)
+    idx = [(0, 0), (0, 1), (0, 2), (1, 1), (1, 2), (2, 2)]
+    for n, (i, j) in enumerate(idx):
+        K[i, j] = K[j, i] = case["K"][n] * mod[1 + n % 3]
+    alpha = case["alpha"] * mod[1]
+    beta = np.array([case["beta"][i] * mod[(i + 2) % 4] for i in range(3)])
+    dvec = np.array(case["dir"], float)
+    if np.linalg.norm(dvec) < 1e-3:
+        dvec = np.array([1.0, 0.0, 0.0])
+    nrm = np.sqrt(np.einsum('i,j,ij...->...', dvec, dvec, gam))
+    sp = case["speed"] * (0.6 + 0.4 * mod[3] / (1 + w))
+    v = sp * dvec.reshape(3, 1, 1, 1) / nrm
+    W = 1.0 / np.sqrt(1.0 - sp ** 2)
+    if case["form"] == "tensors":
+        data = dict(gammadown3=gam, Kdown3=K, alpha=alpha, betaup3=beta)
+    else:
+        data = dict(alpha=alpha)
+        for i, c in enumerate("xyz"):
+            data["beta" + c] = beta[i]
+        for (i, j) in idx:
+            data["g" + "xyz"[i] + "xyz"[j]] = gam[i, j].copy()
+            data["k" + "xyz"[i] + "xyz"[j]] = K[i, j].copy()
+    data.update(velx=v[0], vely=v[1], velz=v[2], w_lorentz=W * one)
+    del one
+    rel = make_rel(fd, data, Lambda=case["Lambda"])
+    note.nt(case["speed"] > 0.1 and any(abs(b) > 0.1 for b in case["beta"]))
+    note.cls("moving-fluid" if case["speed"] > 0 else "u=n",
+             f"wiggle={w}", case["form"])
+    keys = {}
+    for k in ("uup4", "gdown4", "gup4", "thetadown4", "theta", "sheardown4",
+              "omegadown4", "hdown4", "hup4"):
+        keys[k] = get(rel, note, k)
+        if keys[k] is None:
+            return
+    u, g, gi = keys["uup4"], keys["gdown4"], keys["gup4"]
+    # harness-side projector from the metric and the velocity
+    ud = np.einsum('ab...,b...->a...', g, u)
+    hup = gi + np.einsum('a...,b...->ab...', u, u)
+    hdn = g + np.einsum('a...,b...->ab...', ud, ud)
+    th, sig, om = keys["thetadown4"], keys["sheardown4"], keys["omegadown4"]
+    sc = float(np.max(np.abs(th))) * float(np.max(np.abs(hup))) \
+        * max(1.0, float(np.max(np.abs(hdn)))) + 1e-3
+    tol = 1e-10 * sc * float(np.max(W)) ** 2
+
+    def chk(disc, arr):
+        e = float(np.max(np.abs(arr)))
+        if not e <= tol:
+            note.fail(disc, dict(err=e, scale=sc, speed=case["speed"]))
+    chk("sheardown4:trace-free-wrt-h", np.einsum('ab...,ab...->...', hup,
+                                                 sig))
+    chk("sheardown4:symmetric", sig - np.swapaxes(sig, 0, 1))
+    # (orthogonality of theta_ab and sigma_ab to u is NOT algebraic: only the
+    # derivative index of nabla_a u_b is projected, and u^b nabla_a u_b = 0
+    # holds to truncation error of the finite differences only)
+    chk("theta:trace-of-thetadown4",
+        keys["theta"] - np.einsum('ab...,ab...->...', hup, th))
+    chk("thetadown4:decomposition",
+        th - sig - keys["theta"] * hdn / 3.0)
+    chk("omegadown4:antisymmetric", om + np.swapaxes(om, 0, 1))
+    chk("hdown4:value", (keys["hdown4"] - hdn) * float(np.max(np.abs(th))))
+    chk("hup4:value", (keys["hup4"] - hup) * float(np.max(np.abs(th))))
+
+
 def subchecks(tier):
     q = tier == "quick"
     g3 = [dict(P.GENERIC_GEO, aslist=False), dict(P.GENERIC_GEO2, aslist=True)]
@@ -1073,6 +1166,8 @@ def subchecks(tier):
             generic=gr, shards=8 if q else 16),
         Sub("riemann_weyl_homogeneous", homog_case(), test_homog,
             120 if q else 3000, shards=8 if q else 16),
+        Sub("kinematic_parts", kin_case(), test_kinematic,
+            60 if q else 3000, shards=4 if q else 16),
         Sub("safe_division", sd_case(), test_safe_division,
             2400 if q else 40000, generic=sd_generic(),
             shards=8 if q else 16),
